@@ -259,52 +259,59 @@ Definition op_go (m : sim) (kind : nat) : sim :=
 
 Definition remove_id (i : nat) (l : list nat) : list nat := filter (fun j => negb (Nat.eqb j i)) l.
 
+(* a spawner submits its child from inside the body, when nothing is queued and the model admits it *)
+Definition rel_spawn (m : sim) (kind : nat) : sim :=
+  if kind_spawns kind && (match s_queue m with [] => true | _ => false end) && (s_next m <? MAXTASKS) then
+    let c := s_next m in
+    let mc := {| s_lim := s_lim m; s_next := S c; s_queue := s_queue m; s_act := s_act m; s_kind := set (s_kind m) c 0;
+                 s_waiter := s_waiter m; s_out := s_out m; s_maxin := s_maxin m; s_npanic := s_npanic m; s_bad := s_bad m |} in
+    match let_in mc c with
+    | Some m' => with_maxin m' (length (s_act m'))      (* the parent is still inside *)
+    | None => m
+    end
+  else m.
+(* the body of j ends *)
+Definition rel_end (m1 : sim) (j kind : nat) : option sim :=
+  let evs := if kind_panics kind then [Panic j (panic_value j); Cleanup j] else [Return j; Cleanup j] in
+  let outs := if kind_panics kind
+              then (E_PANIC, zi j, zi (panic_value j)) :: (E_RAISE, zi j, zi (panic_value j)) :: s_out m1
+              else (E_RETURN, zi j, 0%Z) :: s_out m1 in
+  match accepts (s_lim m1) evs with
+  | None => None
+  | Some l2 => Some {| s_lim := l2; s_next := s_next m1; s_queue := s_queue m1; s_act := remove_id j (s_act m1); s_kind := s_kind m1;
+                       s_waiter := s_waiter m1; s_out := outs; s_maxin := s_maxin m1;
+                       s_npanic := (if kind_panics kind then S (s_npanic m1) else s_npanic m1); s_bad := s_bad m1 |}
+  end.
+(* the freed token goes to the head of the queue, or an outstanding Wait returns *)
+Definition rel_after (m2 : sim) : sim :=
+  match s_queue m2 with
+  | h :: q =>
+      let m3 := {| s_lim := s_lim m2; s_next := s_next m2; s_queue := q; s_act := s_act m2; s_kind := s_kind m2;
+                   s_waiter := s_waiter m2; s_out := s_out m2; s_maxin := s_maxin m2; s_npanic := s_npanic m2; s_bad := s_bad m2 |} in
+      match let_in m3 h with
+      | Some m4 => with_maxin m4 (length (s_act m4))
+      | None => mark_bad m2
+      end
+  | [] =>
+      if s_waiter m2 then
+        match step (s_lim m2) WaitReturn with
+        | Some l3 => {| s_lim := l3; s_next := s_next m2; s_queue := []; s_act := s_act m2; s_kind := s_kind m2;
+                        s_waiter := false; s_out := (E_WAITRET, 0%Z, 0%Z) :: s_out m2; s_maxin := s_maxin m2;
+                        s_npanic := s_npanic m2; s_bad := s_bad m2 |}
+        | None => m2
+        end
+      else m2
+  end.
 Definition op_rel (m : sim) (k : nat) : sim :=
   match s_act m with
   | [] => m
   | a0 :: _ =>
       let j := nth (k mod length (s_act m)) (s_act m) a0 in
       let kind := s_kind m j in
-      (* a spawner submits its child from inside the body, when nothing is queued and the model admits it *)
-      let m1 :=
-        if kind_spawns kind && (match s_queue m with [] => true | _ => false end) && (s_next m <? MAXTASKS) then
-          let c := s_next m in
-          let mc := {| s_lim := s_lim m; s_next := S c; s_queue := s_queue m; s_act := s_act m; s_kind := set (s_kind m) c 0;
-                       s_waiter := s_waiter m; s_out := s_out m; s_maxin := s_maxin m; s_npanic := s_npanic m; s_bad := s_bad m |} in
-          match let_in mc c with
-          | Some m' => with_maxin m' (length (s_act m'))      (* the parent is still inside *)
-          | None => m
-          end
-        else m in
-      (* the body of j ends *)
-      let evs := if kind_panics kind then [Panic j (panic_value j); Cleanup j] else [Return j; Cleanup j] in
-      let outs := if kind_panics kind
-                  then (E_PANIC, zi j, zi (panic_value j)) :: (E_RAISE, zi j, zi (panic_value j)) :: s_out m1
-                  else (E_RETURN, zi j, 0%Z) :: s_out m1 in
-      match accepts (s_lim m1) evs with
+      let m1 := rel_spawn m kind in
+      match rel_end m1 j kind with
       | None => mark_bad m1
-      | Some l2 =>
-          let m2 := {| s_lim := l2; s_next := s_next m1; s_queue := s_queue m1; s_act := remove_id j (s_act m1); s_kind := s_kind m1;
-                       s_waiter := s_waiter m1; s_out := outs; s_maxin := s_maxin m1;
-                       s_npanic := (if kind_panics kind then S (s_npanic m1) else s_npanic m1); s_bad := s_bad m1 |} in
-          match s_queue m2 with
-          | h :: q =>
-              let m3 := {| s_lim := s_lim m2; s_next := s_next m2; s_queue := q; s_act := s_act m2; s_kind := s_kind m2;
-                           s_waiter := s_waiter m2; s_out := s_out m2; s_maxin := s_maxin m2; s_npanic := s_npanic m2; s_bad := s_bad m2 |} in
-              match let_in m3 h with
-              | Some m4 => with_maxin m4 (length (s_act m4))
-              | None => mark_bad m2
-              end
-          | [] =>
-              if s_waiter m2 then
-                match step (s_lim m2) WaitReturn with
-                | Some l3 => {| s_lim := l3; s_next := s_next m2; s_queue := []; s_act := s_act m2; s_kind := s_kind m2;
-                                s_waiter := false; s_out := (E_WAITRET, 0%Z, 0%Z) :: s_out m2; s_maxin := s_maxin m2;
-                                s_npanic := s_npanic m2; s_bad := s_bad m2 |}
-                | None => m2
-                end
-              else m2
-          end
+      | Some m2 => rel_after m2
       end
   end.
 
